@@ -490,20 +490,7 @@ class List(list, base.Symbolic, pg_typing.CustomTyping):
         item.sym_setpath(utils.KeyPath(idx, self.sym_path))
 
   def _parse_slice(self, index: slice) -> Tuple[int, int, int]:
-    start = index.start if index.start is not None else 0
-    start = max(-len(self), start)
-    start = min(len(self), start)
-    if start < 0:
-      start += len(self)
-
-    stop = index.stop if index.stop is not None else len(self)
-    stop = max(-len(self), stop)
-    stop = min(len(self), stop)
-    if stop < 0:
-      stop += len(self)
-
-    step = index.step if index.step is not None else 1
-    return start, stop, step
+    return index.indices(len(self))
 
   def _init_kwargs(self) -> typing.Dict[str, Any]:
     kwargs = super()._init_kwargs()
@@ -553,12 +540,12 @@ class List(list, base.Symbolic, pg_typing.CustomTyping):
                               'Use \'rebind\' method instead.'))
     if isinstance(index, slice):
       start, stop, step = self._parse_slice(index)
-      replacements = [self._formalized_value(i, v) for i, v in enumerate(value)]
-      if step < 0:
-        replacements.reverse()
-        step = -step
-      slice_size = math.ceil((stop - start) * 1.0 / step)
+      replacements = list(value)
       if step == 1:
+        stop = max(start, stop)
+        slice_size = stop - start
+        positions = [start + i for i in range(
+            max(slice_size, len(replacements)))]
         if slice_size < len(replacements):
           for i in range(slice_size, len(replacements)):
             replacements[i] = Insertion(replacements[i])
@@ -566,13 +553,15 @@ class List(list, base.Symbolic, pg_typing.CustomTyping):
           replacements.extend(
               [pg_typing.MISSING_VALUE
                for _ in range(slice_size - len(replacements))])
-      elif slice_size != len(replacements):
-        raise ValueError(
-            f'attempt to assign sequence of size {len(replacements)} to '
-            f'extended slice of size {slice_size}')
+      else:
+        positions = list(range(start, stop, step))
+        if len(positions) != len(replacements):
+          raise ValueError(
+              f'attempt to assign sequence of size {len(replacements)} to '
+              f'extended slice of size {len(positions)}')
       updates = []
-      for i, r in enumerate(replacements):
-        update = self._set_item_without_permission_check(start + i * step, r)
+      for pos, r in zip(positions, replacements):
+        update = self._set_item_without_permission_check(pos, r)
         if update is not None:
           updates.append(update)
       self._finalize_updates()
@@ -591,7 +580,7 @@ class List(list, base.Symbolic, pg_typing.CustomTyping):
       raise TypeError(
           f'list assignment index must be an integer. Encountered {index!r}.')
 
-  def __delitem__(self, index: int) -> None:
+  def __delitem__(self, index: Union[int, slice]) -> None:
     """Delete an item from the List."""
     if base.treats_as_sealed(self):
       raise base.WritePermissionError('Cannot delete item from a sealed List.')
@@ -601,31 +590,37 @@ class List(list, base.Symbolic, pg_typing.CustomTyping):
           self._error_message('Cannot delete List item while accessor_writable '
                               'is set to False. '
                               'Use \'rebind\' method instead.'))
-    if not isinstance(index, numbers.Integral):
+    if isinstance(index, slice):
+      indices = sorted(range(*self._parse_slice(index)))
+    elif isinstance(index, numbers.Integral):
+      if index < -len(self) or index >= len(self):
+        raise IndexError(
+            f'list index out of range. '
+            f'Length={len(self)}, index={index}')
+      indices = [index if index >= 0 else index + len(self)]
+    else:
       raise TypeError(
-          f'list index must be an integer. Encountered {index!r}.')
+          f'list index must be an integer or slice. Encountered {index!r}.')
 
-    if index < -len(self) or index >= len(self):
-      raise IndexError(
-          f'list index out of range. '
-          f'Length={len(self)}, index={index}')
+    updates = []
+    for i in reversed(indices):
+      old_value = self.sym_getattr(i)
+      super().__delitem__(i)
 
-    old_value = self.sym_getattr(index)
-    super().__delitem__(index)
-
-    # Detach old value from object tree.
-    if isinstance(old_value, base.TopologyAware):
-      old_value.sym_setparent(None)
-      old_value.sym_setpath(utils.KeyPath())
+      # Detach old value from object tree.
+      if isinstance(old_value, base.TopologyAware):
+        old_value.sym_setparent(None)
+        old_value.sym_setpath(utils.KeyPath())
+      updates.append(
+          base.FieldUpdate(
+              self.sym_path + i, self,
+              self._value_spec.element if self._value_spec else None,
+              old_value, pg_typing.MISSING_VALUE))
     self._sync_children_paths()
 
-    if flags.is_change_notification_enabled():
-      self._notify_field_updates([
-          base.FieldUpdate(
-              self.sym_path + index, self,
-              self._value_spec.element if self._value_spec else None,
-              old_value, pg_typing.MISSING_VALUE)
-      ])
+    if flags.is_change_notification_enabled() and updates:
+      updates.reverse()
+      self._notify_field_updates(updates)
 
   def __add__(self, other: Iterable[Any]) -> 'List':
     """Returns a concatenated List of self and other."""
